@@ -25,9 +25,13 @@ def handle(ctx, bad, evs, label):
 def run(ctx):
     q = ctx.quick
     ctx.assumptions += ['real-time order is required within one allocator and between the global allocator and a local one, not between two local allocators',
-                        'the exhaustive model of the global protocol uses single-value global requests; a model-level counterexample for multi-value '
-                        'global requests (the smaller values of the batch below an earlier local timestamp) could not be reproduced on the real '
-                        'cluster and is therefore not reported (see DESIGN.md, C05)',
+                        'LocalGlobal.tla (the abstract protocol, one round of requests) is checked with single-value global requests; '
+                        'GlobalPhases.tla (the protocol as coded: SyncMaxTS always sends its request twice, so the second round meets equal '
+                        'values, is answered with +1 and every request goes through the second phase) is checked with multi-value requests too; '
+                        'with one round only the smaller values of a multi-value global request could fall below an earlier local timestamp '
+                        '(MC_GlobalPhases_oneround.cfg must be refuted)',
+                        'for the request-by-request replay all allocators are first moved one hour ahead of the wall clock (two administrator '
+                        'resets), so that no clock ticks on its own; clock movements are administrator resets of 3 ms or to the value in flight',
                         'in-process cluster of three real servers; RPCs between them go over real loopback gRPC']
     ctx.mc('tso', 'LocalGlobal', 'MC_LocalGlobal.cfg', timeout=1800)
     ctx.mc('tso', 'Suffix', 'MC_Suffix.cfg', timeout=600)
@@ -40,12 +44,33 @@ def run(ctx):
         bad, evs = ctx.monitor_all('tso', 'Mon_Suffix', 'Mon_Suffix.cfg', tr, 'suffix_%d' % sd)
         handle(ctx, bad, evs, 'suffix_%d' % sd)
         ctx.extra['stale_suffix_transactions_of_old_leader'] = ctx.extra.get('stale_suffix_transactions_of_old_leader', 0) + sum(1 for e in evs if e.get('ev') == 'StaleTxnOfOldLeader')
+    # the protocol at the grain of the code: attempts, rounds of requests, the handler at each datacenter, a lost reply and the retry
+    ctx.mc('tso', 'GlobalPhases', 'MC_GlobalPhases.cfg', timeout=1800)
+    # non-vacuity: if the second-phase flag survived a failed attempt the model would hand out a global timestamp below a local one
+    ctx.mc('tso', 'GlobalPhases', 'MC_GlobalPhases_stickyskip.cfg', timeout=600, expect_violation='Consistent')
+    # ... and with one round of requests per phase (an early exit from the loop in SyncMaxTS) a multi-value global request would overlap
+    ctx.mc('tso', 'GlobalPhases', 'MC_GlobalPhases_oneround.cfg', timeout=600, expect_violation='Consistent')
+    for sd in seeds:
+        behs = ctx.simulate('tso', 'GlobalPhases', 'Sim_GlobalPhases.cfg', num=60 if q else 250, depth=70, seed=sd)
+        bj = os.path.join(ctx.dir, 'phases_behs.json')
+        json.dump(behs, open(bj, 'w'))
+        tr = os.path.join(ctx.dir, 'phases_%d.ndjson' % sd)
+        vlib.run_harness(['tso', 'phases', 'in=' + bj, 'out=' + tr], timeout=2400)
+        bad, evs = ctx.monitor_all('tso', 'Mon_GlobalPhases', 'Mon_GlobalPhases.cfg', tr, 'phases_%d' % sd, timeout=1800)
+        handle(ctx, bad, evs, 'phases_%d' % sd)
+        for k, f in (('gated_sync_requests_delivered', lambda e: e.get('ev') == 'deliver'), ('replies_lost', lambda e: e.get('ev') == 'deliver' and e['lost']),
+                     ('second_phases', lambda e: e.get('ev') == 'round' and e['skip']), ('gated_global_requests', lambda e: e.get('ev') == 'global' and not e['err'])):
+            ctx.extra[k] = ctx.extra.get(k, 0) + sum(1 for e in evs if f(e))
+        ctx.sample({'kind': 'a global request delivered request by request on a real 3-datacenter cluster', 'events': [e for e in evs if e.get('ev') in ('start', 'round', 'deliver', 'global')][:8]})
     T.run_local_global(ctx, T.LG_C05, q)
     return ctx.finish(rule='exhaustive TLC of LocalGlobal.tla (2 datacenters, the global request in phases estimate/check/decide/write/return '
-                           'interleaved with local requests and physical ticks) and Suffix.tla (2 members, 3 datacenters, a leader change with '
+                           'interleaved with local requests and physical ticks), of GlobalPhases.tla (2 datacenters; attempts, two rounds of '
+                           'requests per phase, the handler per datacenter, a lost reply and the retry, single- and multi-value requests) and Suffix.tla (2 members, 3 datacenters, a leader change with '
                            'a transaction in flight); suffix assignment of an old and a new leader interleaved at the etcd transaction on real '
                            'AllocatorManagers; request histories (sequential patterns inside one physical tick, concurrent phases, allocator leader '
-                           'moves) from a real 3-server cluster with per-datacenter allocators; Mon_Suffix.tla / Mon_LocalGlobal.tla decide')
+                           'moves) from a real 3-server cluster with per-datacenter allocators; TLC -simulate behaviours of GlobalPhases.tla replayed on that '
+                           'cluster with every SyncMaxTS request parked and delivered as the behaviour says; Mon_Suffix.tla / Mon_LocalGlobal.tla / '
+                           'Mon_GlobalPhases.tla decide')
 
 
 def replay(ctx, path):
